@@ -282,7 +282,7 @@ class MotionMonitor(Monitor):
             return gen_exact_case(rnd)
         settings = self.settings_for(rnd, feats)
         if feats.get("fw"):
-            feats["fwparam"] = rnd.choice(["", "", "S1", "S0"])
+            feats["fwparam"] = rnd.choice(["", "", "S1", "S0", "S"])       # "G10 S": a flag without a value
             feats["fwnospace"] = rnd.random() < 0.3       # "G10S1" is legal G-code too
         long_ = tier == "thorough" and rnd.random() < 0.05
         regs, g = gen_program(rnd, feats, settings, nsteps=rnd.randint(100, 600) if long_ else None)
@@ -395,7 +395,8 @@ class C01(MotionMonitor):
                (1, "g90-influences-extruder-inch", mk(rel=True, inch=True, g90e=True, p_inside=0.5)),
                (1, "firmware-unmatched", mk(fw=True, fw_stray=True, p_inside=0.5)),
                (1, "arcs-under-g91-inch", mk(rel=True, inch=True, arcs=True, arcs_rel=True, p_arc=0.1, start_rel=0.5)),
-               (1.5, "spelled-arcs", mk(arcs=True, spell=True, p_arc=0.25, p_inside=0.5))]
+               (1.5, "spelled-arcs", mk(arcs=True, spell=True, p_arc=0.25, p_inside=0.5)),
+               (1.5, "homing-mid-print", mk(rel=True, g28mid=True, boost=0.1, p_inside=0.5))]
 
     def settings_for(self, rnd, feats):
         s = MotionMonitor.settings_for(self, rnd, feats)
